@@ -80,7 +80,37 @@ notes.update({
  'C19b':"before-hook lists of >= 3 hooks: `then` inserts after the head instead of appending",
  'C20b':"round-robin cursor folded back with a separate store after fetch_add: lost updates at the wrap under real threads",
 })
+notes.update({
+ 'C01c':"request id read before the send to the dispatch and incremented after it: calls that park on a full request buffer share an id; a late reply for the first completes the second",
+ 'C02c':"ensure_writeable returns Pending right after a successful flush: hangs only over a sink that never wakes a task it told 'not ready' when that task's own flush freed the room",
+ 'C03c':"pump_write: once the request queue is closed the cancellation queue is assumed closed too: call abandoned and last handle dropped before the next dispatch poll, Cancel never sent",
+ 'C04c':"same site as C03c seen from the chain: a handler that owns its downstream client is aborted, the nested call and the last handle go together, the Cancel to the next hop is lost",
+ 'C05c':"cancel_request keeps the timer and poll_expired yields None for an untracked id: after an abandoned earlier-deadline call's timer fires, nobody is registered for the later deadline",
+ 'C06c':"BaseChannel::poll_next returns None at once when the transport is done: expiry (and cancellation) of requests still in flight after a half-close is never processed",
+ 'C07c':"serde default for a missing deadline removed: a JSON request without a deadline member is rejected instead of getting the 10 s default",
+ 'C08c':"deadline timer armed before the duplicate check: an ignored duplicate leaves a timer that later 'expires' whatever request then uses the id; the next duplicate gets a second handler",
+ 'C09c':"terminal error taken (not cloned) at the start of shutdown: if the drain returns Pending the failure is forgotten and the dispatch carries on over the failed transport",
+ 'C10c':"a stale cancellation (request no longer in flight) is read as 'cancellation queue closed': live cancellations behind it are not sent before the transport is closed",
+ 'C11c':"same change as C08c seen as a leak: every duplicate leaves a timer nothing removes",
+ 'C12c':"response guard moved into the handler future and disarmed only after a response: an aborted handler's guard untracks the request that has taken over its id, so the limit admits one too many",
+ 'C13c':"'saturated key' cache set when a key is shed and cleared only on the key's LAST close: after a partial close arrivals are shed below the limit",
+ 'C14c':"server: a write-half failure coinciding with a freshly read request is swallowed; the next poll writes to the failed transport",
+ 'C15c':"serde transport: 'needs flush' flag cleared before the inner flush completes: after one Pending write the send resolves with bytes still buffered; dropping the writer loses them",
+ 'C16c':"timer cap applied only above 2 years: on an aged connection with a long-lived request in flight a mid-range deadline (693 days at age 300 days) leaves the timer wheel's range",
+ 'C17c':"server sets the span's remote parent after reading the span's context: under an OpenTelemetry layer the implementor is handed a context of another trace",
+ 'C18c':"trace id serialized big-endian, read little-endian: byte-reversed at every serializing hop",
+ 'C19c':"before-hook list uses Result::and: the rest of the list runs although an earlier hook failed",
+ 'C20c':"round robin picks the backend by peeking and advances the cursor after the await: overlapping calls all go to the same backend",
+})
 strength={
+ 'C02c':"NOT counted as a miss: the sink in the demonstration breaks futures::Sink::poll_ready's contract (and C02's stated environment: capacity returning wakes the task); a FlushFrees transport flavour that frees room in poll_flush AND wakes was added - with it the change costs one extra poll and nothing else",
+ 'C04c':"chain harness gained own_clients (each handle owned by the future that uses it, nothing keeps it alive)",
+ 'C05c':"abandonment added to C05's alphabet and scripted (one of two calls with different deadlines abandoned)",
+ 'C08c':"C08 configurations with a duplicate carrying a shorter deadline, the clock and a second duplicate; the peer model no longer lets an ignored duplicate shorten 'in flight'; tracked() no longer calls an unexplained abort uncertain",
+ 'C12c':"cancel + immediate id reuse scripted in C12 and C11 (no application-side handler drops in that alphabet)",
+ 'C15c':"medium returns Pending on every subset of the first three writes and first two flushes, with and without a final close: a resolved send is on the medium",
+ 'C16c':"mid-range deadlines (10 s .. 796 d) and more ages in the connection-age grid",
+ 'C17c':"the grid taps the wire at the server transport and runs a second time under a tracing-opentelemetry layer",
  'C04b':"chain harness gained Gated hops (client-side sink made not-ready by a harness event)",
  'C06b':"time-based oracle C06-response-after-deadline; it then exposed D-C06b on the unchanged tree (fixed)",
  'C17b':"grid extended to arities 10, 11, 13 and an all-u8 type row",
